@@ -561,11 +561,16 @@ def coreCompare (j : Json) : Except String Json := do
   let text ← j.getObjValAs? String "text"
   match PV.Flatten.flatten floatCfg prog with
   | none => pure (Json.mkObj [("verdict", Json.str "outside-core")])
-  | some (core, procs) =>
-    -- the executable form of the theorems' hypothesis `Good`: branch pairs from the real tables, `ra` untouched, calls of
-    -- existing procedures only, procedures call nothing
+  | some (core, procs, ranks) =>
+    -- the executable form of the theorems' hypotheses: `Good` (branch pairs from the real tables, `ra` / `sp` untouched, own-stack
+    -- memory only at literal addresses from `lo` = 64 on, calls of existing procedures) for the main code; for procedure `k` the
+    -- same with calls restricted to procedures of smaller rank; all ranks below `lo`
+    let lo := 64
     let idxs := List.range procs.length
-    let good := PV.Core.goodB PV.Flatten.branchPairs idxs core && procs.all (fun b => PV.Core.goodB PV.Flatten.branchPairs [] b)
+    let rk : Nat → Nat := fun k => ranks.getD k 0
+    let good := PV.Core.goodB FloatSem.sem lo PV.Flatten.branchPairs idxs core &&
+      procs.zipIdx.all (fun (b, k) => PV.Core.goodB FloatSem.sem lo PV.Flatten.branchPairs (idxs.filter (fun j => rk j < rk k)) b) &&
+      ranks.all (fun r => r + 1 ≤ lo)
     if !good then pure (Json.mkObj [("verdict", Json.str "negok-false")]) else
     let flat : String := match j.getObjValAs? Nat "seed", j.getObjValAs? Nat "fuel", (j.getObjVal? "pool").bind poolOf with
       | .ok seed, .ok fuel, .ok pool => flatAgrees prog core procs seed fuel pool
